@@ -262,6 +262,8 @@ def _uniform_case(draw):
         P = draw(S.embedded(draw(S.pdag(3, 6, max_undirected=8, weights=(2, 3, 3)))))
     elif draw(st.integers(0, 4)) == 0:
         P = draw(S.disjoint_union(S.pdag(2, 3, weights=(1, 2, 4)), 3, 4))
+    elif draw(st.integers(0, 3)) == 0:
+        P = draw(S.chordal_undirected())           # cliques chained through shared or bridge nodes, no directed edge at all
     return {"sub": "pdag_hyp", "P": P, "dtype": draw(st.sampled_from(DTYPE_NAMES + ["weighted"])), "salt": draw(st.integers(0, 7)),
             "alldags": draw(st.integers(0, 5)) == 0, "debug": draw(st.integers(0, 7)) == 0}
 
